@@ -76,6 +76,8 @@ class SimSlave:
         self.refused = 0
         self.push_hook = None                # push mode: called with every emitted event (webhooks)
         self.request_hook = None             # called with (method, path) when a request reaches the device
+        self.one_shot = []                   # [{'m','p','skip','fault'}]: the next matching request fails with that fault
+        self.failed_requests = []            # [ms, method, path, body, fault]  requests hit by a one-shot fault (never reached the device)
         self.passwords = {}                  # *_password device attributes are write-only: kept here, never shown by GET /device
         self.slow = {}                       # port id -> ['never'] | ['later', ms]: PATCH .../value is answered 202 Accepted
         self.expire_hook = None              # called with (session id, number of undelivered events) when a session expires
@@ -170,6 +172,21 @@ class SimSlave:
             return False
         p[name] = value
         self.emit('port-update', self.port_json(pid))
+        return True
+
+    def del_port_attr(self, pid, name):
+        p = self.ports.get(pid)
+        if p is None or name not in p or name in ('id', 'type', 'value', 'definitions', 'enabled', 'writable'):
+            return False
+        p.pop(name)
+        self.emit('port-update', self.port_json(pid))
+        return True
+
+    def del_device_attr(self, name):
+        if name not in self.device or name in ('name', 'flags'):
+            return False
+        self.device.pop(name)
+        self.emit('device-update', copy.deepcopy(self.device))
         return True
 
     def add_port(self, pjson):
@@ -317,6 +334,9 @@ def _refused():
 
 class NetDown(Exception):
     """internal: the exchange is cut by the outage; turned into the outage's fault by the fake client"""
+    def __init__(self, fault=None):
+        super().__init__()
+        self.fault = fault
 
 
 # what an unreachable / misbehaving peer looks like to tornado's client (the exceptions AsyncHTTPClient.fetch raises with
@@ -417,9 +437,9 @@ class FakeAsyncHTTPClient:
         try:
             try:
                 return await self._exchange(sim, u, request, raise_error, is_listen)
-            except NetDown:
+            except NetDown as nd:
                 sim.refused += 1
-                status, data = await raise_fault(sim.fault, request)
+                status, data = await raise_fault(nd.fault or sim.fault, request)
                 resp = HTTPResponse(request, status, headers=HTTPHeaders({'Content-Type': 'application/json'}),
                                     buffer=io.BytesIO(data))
                 if resp.error is not None and raise_error:
@@ -433,6 +453,23 @@ class FakeAsyncHTTPClient:
         await asyncio.sleep(sim.next_latency())
         if not sim.net_up:
             raise NetDown()
+        body = None
+        if request.body is not None:
+            try:
+                body = json.loads(request.body.decode())
+            except Exception:
+                body = {'__undecodable__': request.body.decode(errors='replace')}
+        rpath = u.path
+        if sim.base_path and rpath.startswith(sim.base_path):
+            rpath = rpath[len(sim.base_path):] or '/'
+        for shot in sim.one_shot:            # a fault of this one request, with the device otherwise reachable
+            if shot['m'] == request.method and re.fullmatch(shot['p'], rpath.rstrip('/') or '/'):
+                if shot.get('skip', 0) > 0:
+                    shot['skip'] -= 1
+                    continue
+                sim.one_shot.remove(shot)
+                sim.failed_requests.append([_ms(), request.method, rpath, body, shot['fault']])
+                raise NetDown(shot['fault'])
         body = None
         if request.body is not None:
             try:
